@@ -18,6 +18,9 @@ def unbounded_allocator(run):
         raise common.MachineryFailure("UidAlloc.tla: the negative control (no AUTOINCREMENT) is not refuted")
     nob = tlc.tlaps("UidAllocProof")
     run.extra["tlaps_proof"] = {"module": "spec/tlaps/UidAllocProof.tla", "theorem": "Spec => []NeverReused", "obligations_proved": nob}
+    run.extra["obligations"] = nob
+    run.extra["discharged"] = nob
+    run.extra["checker_cmd"] = "tlapm --cleanfp UidAllocProof.tla (spec/tlaps)"
     run.extra["apalache_inductive_invariant"] = {"module": "spec/apalache/UidAlloc.tla", "base_case": base, "inductive_step": step,
                                                  "negative_control_without_autoincrement": neg, "seconds": [t1, t2, t3]}
 
